@@ -99,7 +99,7 @@ def Sim.enterStop (s : Sim) (seq : List SStep) (wait : Bool) : CS :=
 /-- a handled signal on a frontend thread while the stop sequence is in state `c` (`Exit.signalDuringStop`) -/
 def Sim.signalInStop (s : Sim) (c : CS) (wait : Bool) (sg : Sig) (who : String) (infoOn : Bool) : Sim :=
   if s.final.isSome || s.parked then s else
-  let r := signalDuringStop wait infoOn true sg false c c
+  let r := signalDuringStopG Extracted.flushEndsWhenBackendGone wait infoOn true sg false c c
   let acts := onSignal (c.ctx sg false)
   let cls := if !c.idSet then "sig-inside-stop-id-cleared" else if c.serving then "sig-inside-stop-served" else "sig-inside-stop-after-last-look"
   let s1 := { s with entries := s.entries + 1, classes := s.classes ++ [cls],
